@@ -399,6 +399,24 @@ func c17Check(c *Ctx, cs c17Case) *Failure {
 			return failf("c17:second-load-of-same-options-differs", "a second LoadProject on the same ProjectOptions gives name %q environment %v labels %v, the first gave %q %v %v",
 				p2.Name, p2.Environment, p2.Services["svc0"].Labels, p.Name, p.Environment, p.Services["svc0"].Labels)
 		}
+		// the other entry point of the same options, LoadModel, sees the same name and the same environment
+		po3, err := cli.NewProjectOptions(files, opts...)
+		if err != nil {
+			return failf("c17:load-model-differs", "NewProjectOptions fails the second time: %v", err)
+		}
+		m, err := po3.LoadModel(context.Background())
+		if err != nil {
+			return failf("c17:load-model-differs", "%s: LoadProject succeeds, LoadModel with the same options fails: %v", where, err)
+		}
+		var mLabels map[string]any
+		if svcs, ok := m["services"].(map[string]any); ok {
+			if svc, ok := svcs["svc0"].(map[string]any); ok {
+				mLabels, _ = svc["labels"].(map[string]any)
+			}
+		}
+		if m["name"] != p.Name || fmt.Sprint(mLabels["name"]) != gotLabel || (cs.HasVal && fmt.Sprint(mLabels["val"]) != gotVal) {
+			return failf("c17:load-model-differs", "%s: LoadProject gives name %q and labels %v, LoadModel with the same options gives name %v and labels %v", where, p.Name, p.Services["svc0"].Labels, m["name"], mLabels)
+		}
 		return nil
 	})
 	if f != nil {
